@@ -539,7 +539,12 @@ func (l *Listener) poll(n *Net) {
 		}
 		if l.Spec.WrongFirst {
 			other := netip.AddrPortFrom(client.Addr(), client.Port()^1)
-			n.Schedule(Reply{DelayNs: l.Spec.DelayNs, Raw: mk(l.Addr, other), Meta: Meta{ToTTL: -1, Tag: "synack-other-flow", From: l.Addr.Addr(), Flow: -1}})
+			// (another connection has its own sequence numbers)
+			oisn, oack := isn, ackNum
+			isn, ackNum = isn+0x01010101, ackNum+0x02020202
+			raw := mk(l.Addr, other)
+			isn, ackNum = oisn, oack
+			n.Schedule(Reply{DelayNs: l.Spec.DelayNs, Raw: raw, Meta: Meta{ToTTL: -1, Tag: "synack-other-flow", From: l.Addr.Addr(), Flow: -1}})
 		}
 		if l.Spec.NoiseKind != "" && l.Mutate != nil {
 			cl := client
